@@ -415,6 +415,21 @@ func (x *Exec) ifaceContractCall(fr *Frame, st *State, site ssa.Instruction, c *
 				x.havocAll(st)
 				continue
 			}
+			if strings.HasPrefix(g, "@") {
+				// the elements of a slice argument (e.g. the buffer handed to Read)
+				av, ok := env.vars[g[1:]]
+				if !ok {
+					panic(specErr("modifies %s: no such parameter of %s.%s", g, is.Name, ms.Name))
+				}
+				sl, isSlice := av.Typ.Underlying().(*types.Slice)
+				if !isSlice {
+					panic(specErr("modifies %s: not a slice parameter", g))
+				}
+				hn, hs := x.S.ElemHeapT(sl.Elem())
+				h := x.heapGet(st, hn, hs)
+				x.heapSet(st, hn, mkStore(h, Term{app("s_ref", av.T), "Int"}, x.declare("buf", arraySort(x.S.Idx(), x.S.SortOf(sl.Elem())))))
+				continue
+			}
 			a := x.ghostAddr(is, g, recv)
 			nv := x.declare("gh", x.S.SortOf(a.RootT))
 			x.assume(x.typeInv(nv, a.RootT, 0))
